@@ -75,13 +75,24 @@ func TestVerifC19(t *testing.T) {
 		apis = []string{"SyncPrefix", "Sync", "SyncRawPrefix", "SyncRaw"}
 		gaps = []time.Duration{0, 150 * time.Millisecond}
 	}
-	run := func(withRestart bool, maxLen int) func(c *mc.Ctx) {
+	run := func(withRestart bool, maxLen int, blocked bool) func(c *mc.Ctx) {
 		return func(c *mc.Ctx) {
 			api := apis[c.Choose(len(apis), "api")]
 			lazy := c.Choose(2, "consumer-reads-only-afterwards") == 1
 			gap := gaps[c.Choose(len(gaps), "gap")]
 			n := 1 + c.Choose(maxLen, "history-length")
 			var ops []c19Op
+			nprefix := 0
+			if blocked {
+				// a consumer that does not read while 13 distinct contents go by: the syncer's 10-slot channel
+				// fills up and the syncer blocks in its send; then every continuation of <= maxLen operations as a burst
+				lazy, gap = true, 0
+				for i := 0; i < 6; i++ {
+					ops = append(ops, c19Op{"put", "k1", "v1"}, c19Op{"del", "k1", ""})
+				}
+				ops = append(ops, c19Op{"put", "k1", "v1"})
+				nprefix = len(ops)
+			}
 			for i := 0; i < n; i++ {
 				ops = append(ops, c19Ops[c.Choose(len(c19Ops), "op")])
 			}
@@ -222,6 +233,9 @@ func TestVerifC19(t *testing.T) {
 				if gap > 0 {
 					time.Sleep(gap)
 				}
+				if i < nprefix {
+					time.Sleep(40 * time.Millisecond) // every content of the prefix is seen by the syncer on its own
+				}
 			}
 			if restartBefore == len(ops) {
 				restart()
@@ -294,9 +308,9 @@ func TestVerifC19(t *testing.T) {
 			},
 			Replay: func(ch []int) (*mc.Failure, []string) { return mc.ReplayOne(f, ch) }}
 	}
-	jobs := []mc.Job{mk("histories", run(false, L), 12)}
+	jobs := []mc.Job{mk("histories", run(false, L, false), 12), mk("continuations-after-the-consumer-stalled", run(false, 2, true), 12)}
 	if envv.Thorough() {
-		jobs = append(jobs, mk("histories-with-etcd-restart", run(true, 2), 12))
+		jobs = append(jobs, mk("histories-with-etcd-restart", run(true, 2, false), 12))
 	}
 	mc.OnExit = append(mc.OnExit, func() {
 		wg := &sync.WaitGroup{}
